@@ -151,6 +151,7 @@ func (t *Tokenizer) tokenizeBuffer(buf []byte, last bool) error {
 		case skipNewline:
 			t.line++
 			t.noff = off
+			i = 0
 			for i, b = range buf[off+1:] {
 				if spaceMap[b] != skipChar {
 					break
@@ -263,6 +264,7 @@ func (t *Tokenizer) tokenizeBuffer(buf []byte, last bool) error {
 			t.num.Reset()
 			t.mode = digitMap
 			t.num.I = uint64(b - '0')
+			i = 0
 			for i, b = range buf[off+1:] {
 				if digitMap[b] != numDigit {
 					break
@@ -273,7 +275,7 @@ func (t *Tokenizer) tokenizeBuffer(buf []byte, last bool) error {
 					break
 				}
 			}
-			if digitMap[b] == numDigit {
+			if off+1 < len(buf) && digitMap[b] == numDigit {
 				off++
 			}
 			off += i
@@ -388,6 +390,7 @@ func (t *Tokenizer) tokenizeBuffer(buf []byte, last bool) error {
 			t.line++
 			t.noff = off
 			t.mode = afterMap
+			i = 0
 			for i, b = range buf[off+1:] {
 				if spaceMap[b] != skipChar {
 					break
